@@ -4,7 +4,8 @@
    [Reachable n p t s] : s = run (init n p t) ops for some finite list ops of operations, ANY length, any mix of
    Send (managed / explicit) | CSend | CTake | Deliver (final / non final / unknown id) | Event | Recv | Tick | Close. *)
 From Coq Require Import ZArith List Bool Permutation.
-From GCNP Require Import model.Inflight proofs.Inflight proofs.InflightInv proofs.InflightC09.
+From Coq Require Import Relations.
+From GCNP Require Import model.Inflight proofs.Inflight proofs.InflightInv proofs.InflightC09 proofs.InflightSched proofs.InflightRefine.
 Import ListNotations.
 Open Scope Z_scope.
 
@@ -128,3 +129,98 @@ Print Assumptions C09_recycling_after_answers.
 Theorem C09_send_refusal_leaves_no_trace_refuted : ~ send_refusal_leaves_no_trace.
 Proof. exact send_refusal_leaves_no_trace_refuted. Qed.
 Print Assumptions C09_send_refusal_leaves_no_trace_refuted.
+
+(* ================================================================== schedules (proofs/InflightSched.v)
+   [creachable n c]: configuration c = (shared state, multiset of threads) is reachable from the initial one by ANY
+   interleaving of the atomic actions of any number of sender threads (managed or explicit ids), the receive loop and
+   closers; closed-flag loads and releases are over-approximated (may fail at any time).  [slive]: ghost list of the
+   stream ids of the accepted, unanswered requests (added on acceptance, removed only by the receiver's delete for that
+   id or by a closer's drain) - specified independently of the map. *)
+
+(* ---- full statement (F10 repaired by e71cde5): in every interleaving no two accepted unanswered requests share a
+        stream id - explicit ids included -, there are never more than N of them, the map never holds more than N
+        entries, and the map's keys are exactly the live requests *)
+Theorem C09_unanswered_ids_distinct_in_every_schedule :
+  forall n c, 0 <= n -> creachable n c ->
+  NoDup (slive (fst c)) /\ plen (slive (fst c)) <= n /\ slen (smap (fst c)) <= n /\ slive (fst c) = skeys (smap (fst c)).
+Proof. exact unanswered_ids_distinct_in_every_schedule. Qed.
+Print Assumptions C09_unanswered_ids_distinct_in_every_schedule.
+(* non-vacuity: two senders with the SAME explicit id 7 both past the RLock-ed check; one gets registered *)
+Example C09_unanswered_ids_distinct_in_every_schedule_ex :
+  creachable 4 (mkSh [1; 2; 3; 4] [(7, false)] 4 [7], [SAccepted 7 false; S3 7 false; R0]).
+Proof.
+  unfold creachable, cinit. change (zseq' 1 (Z.to_nat 4)) with [1; 2; 3; 4].
+  set (s0 := mkSh [1; 2; 3; 4] [] 4 []).
+  eapply rt_trans; [apply rt_step; apply (c_spawn_sender s0 [R0] 7)|].
+  eapply rt_trans; [apply rt_step; apply (c_spawn_sender s0 [S0 7; R0] 7)|].
+  eapply rt_trans; [apply rt_step; apply c_thread; apply (t_explicit s0 7); discriminate|].
+  eapply rt_trans; [apply rt_step; apply (c_permute s0 _ [S0 7; S2 7 false; R0]); apply perm_swap|].
+  eapply rt_trans; [apply rt_step; apply c_thread; apply (t_explicit s0 7); discriminate|].
+  eapply rt_trans; [apply rt_step; apply c_thread; apply (t_check_pass s0 7 false); [cbn; discriminate|cbn; tauto]|].
+  eapply rt_trans; [apply rt_step; apply (c_permute s0 _ [S2 7 false; S3 7 false; R0]); apply perm_swap|].
+  eapply rt_trans; [apply rt_step; apply c_thread; apply (t_check_pass s0 7 false); [cbn; discriminate|cbn; tauto]|].
+  apply rt_step. apply (c_thread _ _ _ _ _ (t_insert [1; 2; 3; 4] [] 4 [] 7 false ltac:(cbn; discriminate) ltac:(cbn; tauto))).
+Qed.
+(* ... and from there the second sender can only be refused (the former F10 schedule no longer exists) *)
+Theorem C09_former_F10_second_insert_is_refused :
+  forall p n l t' s', tstep (mkSh p [(7, false)] n l) (S3 7 false) s' t' -> t' = S5 7 false /\ s' = mkSh p [(7, false)] n l.
+Proof. exact former_F10_second_insert_is_refused. Qed.
+Print Assumptions C09_former_F10_second_insert_is_refused.
+
+(* ---- an accepted send never displaces a live request: a live id leaves the list only through the receiver's delete
+        for that id or a closer's drain *)
+Theorem C09_live_request_only_removed_by_receiver_or_closer :
+  forall s t s' t' k, tstep s t s' t' -> In k (slive s) -> ~ In k (slive s') -> (exists b, t = R2 k b) \/ t = C0.
+Proof. exact live_request_only_removed_by_receiver_or_closer. Qed.
+Print Assumptions C09_live_request_only_removed_by_receiver_or_closer.
+
+(* ---- the whole schedule invariant: free ids, ids in the hands of threads (borrowed, or removed and not yet given
+        back) and ids of registered managed requests are pairwise disjoint, without repetition, inside [1,N] *)
+Theorem C09_managed_ids_safe_in_every_schedule :
+  forall n c, 0 <= n -> creachable n c -> SInv c.
+Proof. exact managed_ids_safe_in_every_schedule. Qed.
+Print Assumptions C09_managed_ids_safe_in_every_schedule.
+
+(* ---- a sender about to insert its managed request: id in [1,N], carried by no registered managed request, held by no
+        other thread, not in the pool *)
+Theorem C09_managed_registration_exclusive_in_every_schedule :
+  forall n s ts1 ts2 id, 0 <= n -> creachable n (s, ts1 ++ S3 id true :: ts2) ->
+  1 <= id <= n /\ ~ In id (mkeys (smap s)) /\ ~ In id (held (ts1 ++ ts2)) /\ ~ In id (spool s).
+Proof. exact managed_registration_is_exclusive. Qed.
+Print Assumptions C09_managed_registration_exclusive_in_every_schedule.
+Example C09_managed_registration_exclusive_ex : creachable 2 (mkSh [2] [] 2 [], [] ++ S3 1 true :: [R0]).
+Proof.
+  unfold creachable, cinit. change (zseq' 1 (Z.to_nat 2)) with [1; 2].
+  eapply rt_trans; [apply rt_step; apply (c_spawn_sender _ [R0] 0)|].
+  eapply rt_trans; [apply rt_step; apply c_thread; apply (t_borrow [1; 2] [] 2 [] 1 [2]); reflexivity|].
+  apply rt_step. apply c_thread. apply (t_check_pass (mkSh [2] [] 2 []) 1 true); cbn; [discriminate|tauto].
+Qed.
+
+Theorem C09_accepted_managed_ids_bounded_in_every_schedule :
+  forall n c id, 0 <= n -> creachable n c -> In (SAccepted id true) (snd c) -> 1 <= id <= n.
+Proof. exact accepted_managed_ids_bounded_in_every_schedule. Qed.
+Print Assumptions C09_accepted_managed_ids_bounded_in_every_schedule.
+
+(* ================================================================== the two semantics (proofs/InflightRefine.v)
+   [proj] forgets everything but (pool, id -> managed flag, N, key list).  The sequential semantics is the
+   run-to-completion special case of the schedule semantics. *)
+Theorem C09_send_is_a_schedule :
+  forall s k ts, exists t1,
+    clos_refl_trans _ cstep (proj s, S0 k :: ts) (proj (fst (step s (Send k))), t1 :: ts) /\
+    match snd (step s (Send k)) with OAccepted id => t1 = SAccepted id (k =? 0) | _ => t1 = SRefused end.
+Proof. exact send_is_a_schedule. Qed.
+Print Assumptions C09_send_is_a_schedule.
+
+Theorem C09_deliver_is_a_schedule :
+  forall s k last tag ts,
+    clos_refl_trans _ cstep (proj s, R0 :: ts) (proj (fst (step s (Deliver k last tag))), R0 :: ts).
+Proof. exact deliver_is_a_schedule. Qed.
+Print Assumptions C09_deliver_is_a_schedule.
+
+Theorem C09_sequential_history_is_a_schedule :
+  forall n p t ops, exists ts, clos_refl_trans _ cstep (cinit n) (proj (run (init n p t) ops), R0 :: ts).
+Proof. exact sequential_history_is_a_schedule. Qed.
+Print Assumptions C09_sequential_history_is_a_schedule.
+Example C09_sequential_history_is_a_schedule_ex :
+  proj (run (init 2 2 100) [SendManaged; SendExplicit 5; Deliver 1 true 3]) = mkSh [2; 1] [(5, false)] 2 [5].
+Proof. vm_compute. reflexivity. Qed.
